@@ -563,7 +563,8 @@ Definition quirk_child (qk : quirks) (s : schema) (t : nat) (x : xdecl) (k : xdo
   let st := simple_of (get_type s (xd_type x)) in
   if q_alias qk t (xd_name x) then [NElem ALIAS None [] []]
   else if q_nil qk && xd_nillable x then []
-  else if q_empty qk && raw_empty k && match st, xd_default x, xd_fixed x with Some _, None, None => true | _, _, _ => false end
+  else if q_empty qk && raw_empty k && negb (match k with DElem _ a _ => is_nil a | _ => false end)
+          && match st, xd_default x, xd_fixed x with Some _, None, None => true | _, _, _ => false end
        then []
   else if q_edef qk && raw_empty k && match st, xd_default x, xd_fixed x with Some _, None, None | None, _, _ => false | _, _, _ => true end
        then [mark_edef nk]
